@@ -168,6 +168,59 @@ type lic struct {
 	Amount int64
 	Denom  string
 	Months uint32
+	Rend   string // rendering of the client address the licence record is keyed by
+}
+
+// renderings of one account address the bech32 address codec is offered
+const (
+	rLower = "lower" // canonical
+	rUpper = "UPPER" // all upper case: accepted by bech32, decodes to the same account
+	rMixed = "MiXed" // mixed case: rejected by bech32 (must-reject control)
+)
+
+func render(a *world.Actor, r string) string {
+	s := a.Addr.String()
+	switch r {
+	case rUpper:
+		return strings.ToUpper(s)
+	case rMixed:
+		b := []byte(s)
+		for i := len(b) - 1; i >= 0; i-- {
+			if b[i] >= 'a' && b[i] <= 'z' {
+				b[i] -= 'a' - 'A'
+				break
+			}
+		}
+		return string(b)
+	}
+	return s
+}
+
+func tag(r string) string {
+	if r == rLower {
+		return ""
+	}
+	return "[" + r + "]"
+}
+
+// resolve maps an address string as stored / supplied to (actor name, rendering).
+func (e *env) resolve(addr string) (name, rend string, ok bool) {
+	acc, err := sdk.AccAddressFromBech32(addr)
+	if err != nil {
+		return addr, "undecodable", false
+	}
+	canon := acc.String()
+	name = canon
+	if a, known := e.byAddr[canon]; known {
+		name = a.Name
+	}
+	switch addr {
+	case canon:
+		return name, rLower, true
+	case strings.ToUpper(canon):
+		return name, rUpper, true
+	}
+	return name, "other", true
 }
 
 type act struct {
@@ -259,6 +312,10 @@ type alphabet struct {
 	reject  []pair  // the same for targets that have an account (licensed, activated, U)
 	sales   []saleP // (chain, amount in GRAIN, reporting contract) of SaleQuorum
 	govSets bool    // governance replaces the sale-contract set by any subset of {ref2, ref}; otherwise it toggles ref's contract
+	// rends: renderings of the client address used by AddLicence, SaleQuorum, Register and Auth
+	// (nil = canonical only); oneFunder: only F2 creates licences directly
+	rends     []string
+	oneFunder bool
 }
 
 func fullAlphabet() alphabet {
@@ -292,8 +349,19 @@ func contractsAlphabet() alphabet {
 		sales:  []saleP{{ref, 1, saleContract}, {ref, 1, saleContract2}, {ref2, 1, saleContract2}, {ref2, 1, saleContract}}}
 }
 
+// renderingsAlphabet: every client-naming operation under every rendering of the
+// address (canonical, all upper case, mixed case as must-reject control), in all
+// combinations buy-under-X / activate-under-Y / authenticate-under-Z.
+func renderingsAlphabet() alphabet {
+	return alphabet{name: "renderings", rends: []string{rLower, rUpper, rMixed}, oneFunder: true,
+		create: []pair{{1, 1, world.BondDenom}},
+		sales:  []saleP{{ref, 1, saleContract}}}
+}
+
 func alphabetByName(n string) alphabet {
 	switch n {
+	case "renderings":
+		return renderingsAlphabet()
 	case "full":
 		return fullAlphabet()
 	case "contracts":
@@ -392,7 +460,7 @@ func run(r *report.Run, shard, nshards int, replayFile string) {
 		}
 		return
 	}
-	end := r.Deadline(150*time.Second, 24*time.Minute)
+	end := r.Deadline(165*time.Second, 24*time.Minute)
 	start := time.Now()
 	total := end.Sub(start)
 	var wsum, cum float64
@@ -403,10 +471,15 @@ func run(r *report.Run, shard, nshards int, replayFile string) {
 		cum += j.weight
 		spec := e.spec(j, shard, nshards)
 		spec.Deadline = start.Add(time.Duration(float64(total) * cum / wsum))
+		if !e.thorough {
+			spec.Deadline = end // the quick searches are sized to complete: no time slices
+		}
 		e.al = j.al
+		t0 := time.Now()
 		res := explore.Run(r, spec)
 		if shard == 0 {
 			r.Extra["depth_bound/"+spec.Name] = float64(spec.MaxDepth)
+			r.Extra["wall_s_shard0/"+spec.Name] = float64(int(time.Since(t0).Seconds()))
 		}
 		// summed over the worker processes: equals worker_processes when every shard finished the
 		// bound (otherwise caps_hit names the depth whose frontier was being expanded at the deadline)
@@ -435,7 +508,7 @@ func (e *env) jobs() []job {
 	for _, s := range e.scenarios() {
 		sc[s.name] = s
 	}
-	full, red, con := fullAlphabet(), reducedAlphabet(), contractsAlphabet()
+	full, red, con, rnd := fullAlphabet(), reducedAlphabet(), contractsAlphabet(), renderingsAlphabet()
 	const (
 		A  = "configured/F1-poor-F2-rich"
 		B  = "configured/exactly-enough"
@@ -446,12 +519,12 @@ func (e *env) jobs() []job {
 	)
 	if !e.thorough {
 		return []job{
-			{sc[E], red, 4, 1}, {sc[T], con, 3, 2}, {sc[C], red, 3, 2}, {sc[B], red, 4, 5}, {sc[A], red, 4, 7},
+			{sc[E], red, 4, 1}, {sc[T], con, 3, 2}, {sc[A2], rnd, 4, 3}, {sc[C], red, 3, 2}, {sc[B], red, 4, 5}, {sc[A], red, 4, 7},
 			{sc[A], full, 3, 5},
 		}
 	}
 	return []job{
-		{sc[E], full, 4, 1}, {sc[T], con, 5, 3}, {sc[C], full, 3, 2}, {sc[B], full, 3, 2}, {sc[A], full, 4, 10},
+		{sc[E], full, 4, 1}, {sc[T], con, 5, 3}, {sc[A2], rnd, 6, 4}, {sc[C], full, 3, 2}, {sc[B], full, 3, 2}, {sc[A], full, 4, 10},
 		{sc[E], red, 6, 1}, {sc[C], red, 5, 4}, {sc[A2], red, 5, 4},
 		{sc[B], red, 6, 10}, {sc[A], red, 6, 16},
 	}
@@ -590,7 +663,7 @@ func (e *env) scenarios() []scenario {
 				e.init[name][u.Name+"/"+d] = w.Balance(ctx, u.Addr, d)
 			}
 		}
-		g := &ghost{Scn: name, Lic: map[string]lic{"L0": {5, world.BondDenom, 1}}, Act: map[string]act{}, Paid: map[string]int64{}, Grants: map[string]bool{},
+		g := &ghost{Scn: name, Lic: map[string]lic{"L0": {5, world.BondDenom, 1, rLower}}, Act: map[string]act{}, Paid: map[string]int64{}, Grants: map[string]bool{},
 			Nonce: map[string]uint64{}, Funders: funders, Feegranter: feegranter, Contracts: cs}
 		return scenario{name: name, node: &explore.Node{Ctx: ctx, Ghost: g}, depthOff: depthOff, weight: weight}
 	}
@@ -677,10 +750,8 @@ func (e *env) hash(n *explore.Node) string {
 }
 
 func (e *env) name(addr string) string {
-	if a, ok := e.byAddr[addr]; ok {
-		return a.Name
-	}
-	return addr
+	n, _, _ := e.resolve(addr)
+	return n
 }
 
 func (e *env) licences(ctx sdk.Context) (map[string]lic, *explore.Fail) {
@@ -693,10 +764,14 @@ func (e *env) licences(ctx sdk.Context) (map[string]lic, *explore.Fail) {
 		if !l.Amount.Amount.IsInt64() {
 			return nil, explore.Failf("licence-set", "licence of %s holds %s", e.name(l.ClientAddress), l.Amount)
 		}
-		if _, dup := out[e.name(l.ClientAddress)]; dup {
-			return nil, explore.Failf("licence-set", "two licence records for %s", e.name(l.ClientAddress))
+		name, rend, ok := e.resolve(l.ClientAddress)
+		if !ok {
+			return nil, explore.Failf("licence-set", "licence record for the undecodable address %q", l.ClientAddress)
 		}
-		out[e.name(l.ClientAddress)] = lic{l.Amount.Amount.Int64(), l.Amount.Denom, l.VestingMonths}
+		if _, dup := out[name]; dup {
+			return nil, explore.Failf("licence-set", "two pending licence records for the account of %s", name)
+		}
+		out[name] = lic{l.Amount.Amount.Int64(), l.Amount.Denom, l.VestingMonths, rend}
 	}
 	return out, nil
 }
@@ -738,8 +813,22 @@ func (e *env) invariant(n *explore.Node) *explore.Fail {
 			sum = sum.Add(coin(l.Amount, l.Denom))
 		}
 	}
-	if all := w.App.BankKeeper.GetAllBalances(ctx, e.module); !all.Equal(sum) {
-		return explore.Failf("I1-escrow", "paloma module account holds %q, not-yet-activated licences total %q: %s", all, sum, e.describe(ctx))
+	all := w.App.BankKeeper.GetAllBalances(ctx, e.module)
+	recs, rerr := w.App.PalomaKeeper.AllLightNodeClientLicenses(ctx)
+	if rerr != nil {
+		return explore.Failf("read-licences", "AllLightNodeClientLicenses: %v", rerr)
+	}
+	recSum := sdk.NewCoins()
+	for _, l := range recs {
+		if l.Amount.IsPositive() {
+			recSum = recSum.Add(l.Amount)
+		}
+	}
+	if !all.Equal(recSum) {
+		return explore.Failf("I1-escrow", "paloma module account holds %q, the not-yet-activated licence records total %q: %s", all, recSum, e.describe(ctx))
+	}
+	if !all.Equal(sum) {
+		return explore.Failf("I1-escrow-ledger", "paloma module account holds %q, not-yet-activated licences of the ledger total %q: %s", all, sum, e.describe(ctx))
 	}
 	// I2 licence records == ledger
 	got, f := e.licences(ctx)
@@ -927,22 +1016,31 @@ func (e *env) ops(n *explore.Node) []explore.Op {
 	}
 	targets = append(targets, e.clients[2], e.clients[3])
 
+	rends := e.al.rends
+	if rends == nil {
+		rends = []string{rLower}
+	}
+	funders := e.F
+	if e.al.oneFunder {
+		funders = e.F[1:]
+	}
+
 	// --- direct licence creation
-	for _, fd := range e.F {
+	for _, fd := range funders {
 		for _, c := range targets {
 			pairs := e.al.create
 			if w.App.AccountKeeper.HasAccount(n.Ctx, c.Addr) {
 				pairs = e.al.reject
 			}
 			for _, pr := range pairs {
-				{
-					fd, c, amt, mo, dn := fd, c, pr.amt, pr.mo, pr.denom
-					add(fmt.Sprintf("AddLicence(%s,%s,%d%s,%dmo)", fd.Name, c.Name, amt, dn, mo), func(ctx *sdk.Context, g *ghost) *explore.Fail {
-						msg := &palomatypes.MsgAddLightNodeClientLicense{Metadata: world.Meta(fd), ClientAddress: c.Addr.String(),
+				for _, rd := range rends {
+					fd, c, amt, mo, dn, rd := fd, c, pr.amt, pr.mo, pr.denom, rd
+					add(fmt.Sprintf("AddLicence(%s,%s%s,%d%s,%dmo)", fd.Name, c.Name, tag(rd), amt, dn, mo), func(ctx *sdk.Context, g *ghost) *explore.Fail {
+						msg := &palomatypes.MsgAddLightNodeClientLicense{Metadata: world.Meta(fd), ClientAddress: render(c, rd),
 							Amount: coin(amt, dn), VestingMonths: mo}
 						return e.withFaults(ctx, g, func(ctx *sdk.Context, g *ghost, faulty bool) *explore.Fail {
 							hadAcc := w.App.AccountKeeper.HasAccount(*ctx, c.Addr)
-							_, lerr := w.App.PalomaKeeper.GetLightNodeClientLicense(*ctx, c.Addr.String())
+							_, hadLic := g.Lic[c.Name] // any rendering: the ledger is keyed by account
 							preBal := w.App.BankKeeper.GetAllBalances(*ctx, fd.Addr)
 							var err error
 							if faulty {
@@ -969,8 +1067,11 @@ func (e *env) ops(n *explore.Node) []explore.Op {
 							if hadAcc {
 								return explore.Failf("create-for-existing-account:direct", "licence created for %s which already had an account", c.Name)
 							}
-							if lerr == nil {
-								return explore.Failf("create-for-licensed:direct", "licence created for %s which already had a licence", c.Name)
+							if rd == rMixed {
+								return explore.Failf("create-for-undecodable-address:direct", "licence created for the mixed-case address %q, which no account decodes from", render(c, rd))
+							}
+							if hadLic {
+								return explore.Failf("create-for-licensed:direct", "licence created for the account of %s which already had a pending licence", c.Name)
 							}
 							paid, neg := preBal.SafeSub(w.App.BankKeeper.GetAllBalances(*ctx, fd.Addr)...)
 							wantPaid := sdk.NewCoins()
@@ -983,7 +1084,7 @@ func (e *env) ops(n *explore.Node) []explore.Op {
 							if !faulty {
 								e.cnt["licences_created_direct"]++
 							}
-							g.Lic[c.Name] = lic{amt, dn, mo}
+							g.Lic[c.Name] = lic{amt, dn, mo, rd}
 							g.Paid[fd.Name+"/"+dn] += amt
 							return nil
 						})
@@ -997,22 +1098,22 @@ func (e *env) ops(n *explore.Node) []explore.Op {
 	sales := e.al.sales
 	for _, c := range targets {
 		for _, sp := range sales {
-			{
-				c, amt, contract, chain := c, sp.amt, sp.contract, sp.chain
-				add(fmt.Sprintf("SaleQuorum(%s,%s,%d,%s)", chain, c.Name, amt, contName[contract]), func(ctx *sdk.Context, g *ghost) *explore.Fail {
+			for _, rd := range rends {
+				c, amt, contract, chain, rd := c, sp.amt, sp.contract, sp.chain, rd
+				add(fmt.Sprintf("SaleQuorum(%s,%s%s,%d,%s)", chain, c.Name, tag(rd), amt, contName[contract]), func(ctx *sdk.Context, g *ghost) *explore.Fail {
 					g.Nonce[chain]++
 					nonce := g.Nonce[chain]
 					for _, v := range w.Vals {
 						res := w.DeliverTx(*ctx, []*world.Actor{v.Actor}, &skywaytypes.MsgLightNodeSaleClaim{Metadata: world.Meta(v.Actor),
 							EventNonce: nonce, EthBlockHeight: 10 + nonce, Orchestrator: v.Addr.String(), ChainReferenceId: chain, SkywayNonce: nonce,
-							ClientAddress: c.Addr.String(), Amount: sdkmath.NewInt(amt), SmartContractAddress: contract, CompassId: world.CompassID})
+							ClientAddress: render(c, rd), Amount: sdkmath.NewInt(amt), SmartContractAddress: contract, CompassId: world.CompassID})
 						if !res.OK() {
 							return explore.Failf("harness-claim", "sale claim of %s rejected in %s: %v", v.Name, res.Stage, res.Err)
 						}
 					}
 					return e.withFaults(ctx, g, func(ctx *sdk.Context, g *ghost, faulty bool) *explore.Fail {
 						hadAcc := w.App.AccountKeeper.HasAccount(*ctx, c.Addr)
-						_, lerr := w.App.PalomaKeeper.GetLightNodeClientLicense(*ctx, c.Addr.String())
+						_, hadLic := g.Lic[c.Name] // any rendering: the ledger is keyed by account
 						preBal := []int64{e.bal(*ctx, e.F[0].Addr, world.BondDenom), e.bal(*ctx, e.F[1].Addr, world.BondDenom)}
 						if faulty {
 							w.SkywayEnd(*ctx, &e.fSkyway)
@@ -1028,8 +1129,8 @@ func (e *env) ops(n *explore.Node) []explore.Op {
 							}
 							return nil
 						}
-						l, err := w.App.PalomaKeeper.GetLightNodeClientLicense(*ctx, c.Addr.String())
-						if err != nil || lerr == nil {
+						l, err := w.App.PalomaKeeper.GetLightNodeClientLicense(*ctx, render(c, rd))
+						if err != nil || hadLic || rd == rMixed {
 							return explore.Failf("sale-partial-effect", "sale for %s changed bank / account / feegrant / paloma state without creating a licence: %s", c.Name, e.describe(*ctx))
 						}
 						if !g.Funders || !g.Feegranter {
@@ -1064,7 +1165,7 @@ func (e *env) ops(n *explore.Node) []explore.Op {
 						if !faulty {
 							e.cnt["licences_created_sale"]++
 						}
-						g.Lic[c.Name] = lic{want, world.BondDenom, saleMonths}
+						g.Lic[c.Name] = lic{want, world.BondDenom, saleMonths, rd}
 						if payer >= 0 {
 							g.Paid[e.F[payer].Name+"/"+world.BondDenom] += want
 						}
@@ -1077,43 +1178,92 @@ func (e *env) ops(n *explore.Node) []explore.Op {
 	}
 
 	// --- activation
+	// directMsg runs a paloma message through the application's own message
+	// server in a tx-like cache (no ante): used for creators given in a
+	// non-canonical rendering, which the ante chain admits only for fee-grant
+	// delegates of that account.
+	directMsg := func(ctx sdk.Context, call func(c sdk.Context, s palomatypes.MsgServer) error) (err error) {
+		defer func() {
+			if r := recover(); r != nil {
+				err = fmt.Errorf("panic: %v", r)
+			}
+		}()
+		c, write := ctx.CacheContext()
+		if err = call(c, palomakeeper.NewMsgServerImpl(w.App.PalomaKeeper)); err == nil {
+			write()
+		}
+		return err
+	}
 	type reg struct {
 		label   string
 		creator *world.Actor
-		signers []*world.Actor
+		rend    string         // rendering of the creator address in the message
+		signers []*world.Actor // tx signers; nil = message server called directly (no tx)
+		first   sdk.Msg        // optional harmless first message of the same tx
 	}
 	var regs []reg
 	for _, c := range e.clients {
-		regs = append(regs, reg{fmt.Sprintf("Register(%s)", c.Name), c, []*world.Actor{c}})
+		regs = append(regs, reg{label: fmt.Sprintf("Register(%s)", c.Name), creator: c, rend: rLower, signers: []*world.Actor{c}})
+		for _, rd := range rends {
+			if rd == rLower {
+				continue
+			}
+			// creator in a non-canonical rendering: really signed by the account itself (ante decides), and directly at the message server
+			regs = append(regs, reg{label: fmt.Sprintf("Register(%s%s,signedBy=%s)", c.Name, tag(rd), c.Name), creator: c, rend: rd, signers: []*world.Actor{c}})
+			regs = append(regs, reg{label: fmt.Sprintf("RegisterMsgServer(%s%s)", c.Name, tag(rd)), creator: c, rend: rd})
+		}
 	}
 	for _, c := range e.clients[:3] {
 		// names the licensee as creator, signed by U alone
-		regs = append(regs, reg{fmt.Sprintf("RegisterFor(%s,signedBy=U)", c.Name), c, []*world.Actor{e.U}})
+		regs = append(regs, reg{label: fmt.Sprintf("RegisterFor(%s,signedBy=U)", c.Name), creator: c, rend: rLower, signers: []*world.Actor{e.U}})
+		// the same behind a harmless first message of U in one tx
+		regs = append(regs, reg{label: fmt.Sprintf("RegisterBehind(StatusUpdate(U);%s,signedBy=U)", c.Name), creator: c, rend: rLower, signers: []*world.Actor{e.U},
+			first: &palomatypes.MsgAddStatusUpdate{Status: "ok", Level: palomatypes.MsgAddStatusUpdate_LEVEL_INFO, Metadata: world.Meta(e.U)}})
 		// creator U, first listed signer the licensee (both sign)
-		regs = append(regs, reg{fmt.Sprintf("RegisterCo(creator=U,signers=%s+U)", c.Name), e.U, []*world.Actor{c, e.U}})
+		regs = append(regs, reg{label: fmt.Sprintf("RegisterCo(creator=U,signers=%s+U)", c.Name), creator: e.U, rend: rLower, signers: []*world.Actor{c, e.U}})
 	}
 	for _, rg := range regs {
 		rg := rg
 		add(rg.label, func(ctx *sdk.Context, g *ghost) *explore.Fail {
-			md := vtypes.MsgMetadata{Creator: rg.creator.Addr.String()}
+			creatorStr := render(rg.creator, rg.rend)
+			md := vtypes.MsgMetadata{Creator: creatorStr}
 			for _, s := range rg.signers {
 				md.Signers = append(md.Signers, s.Addr.String())
 			}
+			if rg.signers == nil {
+				md.Signers = []string{rg.creator.Addr.String()}
+			}
 			msg := &palomatypes.MsgRegisterLightNodeClient{Metadata: md}
-			return e.withFaults(ctx, g, func(ctx *sdk.Context, g *ghost, faulty bool) *explore.Fail {
+			// the fault variants call the message server with this creator: identical for every
+			// signer set, so they are enumerated once, on the plain / direct form of the operation
+			inject := e.withFaults
+			if !(rg.signers == nil || len(rg.signers) == 1 && rg.signers[0] == rg.creator && rg.rend == rLower) {
+				inject = func(ctx *sdk.Context, g *ghost, run runner) *explore.Fail { return run(ctx, g, false) }
+			}
+			return inject(ctx, g, func(ctx *sdk.Context, g *ghost, faulty bool) *explore.Fail {
 				T := ctx.BlockTime()
 				preBal := map[string]sdk.Coins{}
 				for _, c := range e.clients {
 					preBal[c.Name] = w.App.BankKeeper.GetAllBalances(*ctx, c.Addr)
 				}
 				var err error
-				if faulty {
+				switch {
+				case faulty:
 					err = e.faultyMsg(*ctx, func(cc sdk.Context, s palomatypes.MsgServer) error {
 						_, err := s.RegisterLightNodeClient(cc, msg)
 						return err
 					})
-				} else {
-					res := w.DeliverTx(*ctx, rg.signers, msg)
+				case rg.signers == nil:
+					err = directMsg(*ctx, func(cc sdk.Context, s palomatypes.MsgServer) error {
+						_, err := s.RegisterLightNodeClient(cc, msg)
+						return err
+					})
+				default:
+					msgs := []sdk.Msg{msg}
+					if rg.first != nil {
+						msgs = []sdk.Msg{rg.first, msg}
+					}
+					res := w.DeliverTx(*ctx, rg.signers, msgs...)
 					if res.Stage == "build" {
 						return explore.Failf("harness", "tx build: %v", res.Err)
 					}
@@ -1128,6 +1278,10 @@ func (e *env) ops(n *explore.Node) []explore.Op {
 					}
 					return nil
 				}
+				// everything below is evaluated on ACCOUNTS (decoded address bytes), not on address strings
+				if rg.rend == rMixed {
+					return explore.Failf("activation-undecodable-creator", "activation accepted for the mixed-case creator %q", creatorStr)
+				}
 				now, f := e.licences(*ctx)
 				if f != nil {
 					return f
@@ -1139,16 +1293,30 @@ func (e *env) ops(n *explore.Node) []explore.Op {
 					}
 				}
 				sort.Strings(removed)
-				if len(removed) == 0 {
+				for _, name := range removed {
+					if name != rg.creator.Name {
+						return explore.Failf("activation-not-by-licensee", "message of creator %s (signers %v) activated the licence(s) of %v", rg.creator.Name, md.Signers, removed)
+					}
+				}
+				l, had := g.Lic[rg.creator.Name]
+				if !had {
 					if _, done := g.Act[rg.creator.Name]; done {
 						return explore.Failf("double-activation", "%s activated a second time: %s", rg.creator.Name, e.describe(*ctx))
 					}
 					return explore.Failf("activate-without-licence", "activation by %s accepted without a licence: %s", rg.creator.Name, e.describe(*ctx))
 				}
-				if len(removed) != 1 || removed[0] != rg.creator.Name {
-					return explore.Failf("activation-not-by-licensee", "message of creator %s (signers %v) activated the licence(s) of %v", rg.creator.Name, md.Signers, removed)
+				if still, ok := now[rg.creator.Name]; ok {
+					return explore.Failf("activated-licence-not-removed", "activation of %s (creator given as %s, licence bought under the %s rendering) paid out, but a pending licence record for that account is still stored (%+v): it is counted as not yet activated", rg.creator.Name, rg.rend, l.Rend, still)
 				}
-				l := g.Lic[rg.creator.Name]
+				if rg.signers != nil {
+					signed := false
+					for _, s := range rg.signers {
+						signed = signed || s == rg.creator
+					}
+					if !signed {
+						return explore.Failf("activation-not-signed-by-licensee", "licence of %s activated by a tx signed only by %v (no fee grant from the licensee)", rg.creator.Name, md.Signers)
+					}
+				}
 				licensed := sdk.NewCoins(coin(l.Amount, l.Denom))
 				for _, c := range e.clients {
 					d, neg := w.App.BankKeeper.GetAllBalances(*ctx, c.Addr).SafeSub(preBal[c.Name]...)
@@ -1176,6 +1344,9 @@ func (e *env) ops(n *explore.Node) []explore.Op {
 				} // kind / schedule mismatches are reported by the invariant (I4)
 				if !faulty {
 					e.cnt["activations"]++
+					if rg.rend != rLower || l.Rend != rLower {
+						e.cnt["activations_noncanonical_rendering"]++
+					}
 				}
 				delete(g.Lic, rg.creator.Name)
 				g.Act[rg.creator.Name] = act{Amount: l.Amount, Denom: l.Denom, Start: T.Unix(), End: end.Unix(), LastAuth: T.Unix()}
@@ -1186,34 +1357,50 @@ func (e *env) ops(n *explore.Node) []explore.Op {
 
 	// --- authentication
 	for _, c := range e.clients {
-		c := c
-		add(fmt.Sprintf("Auth(%s)", c.Name), func(ctx *sdk.Context, g *ghost) *explore.Fail {
-			preNoPaloma := ""
-			if _, isClient := g.Act[c.Name]; isClient {
-				preNoPaloma = e.w.StoreDigest(*ctx, "bank", "feegrant") + e.authCanon(*ctx)
+		for _, rd := range rends {
+			c, rd := c, rd
+			label := fmt.Sprintf("Auth(%s)", c.Name)
+			if rd != rLower {
+				label = fmt.Sprintf("AuthMsgServer(%s%s)", c.Name, tag(rd))
 			}
-			res := w.DeliverTx(*ctx, []*world.Actor{c}, &palomatypes.MsgAuthLightNodeClient{Metadata: world.Meta(c)})
-			if res.Stage == "build" {
-				return explore.Failf("harness", "tx build: %v", res.Err)
-			}
-			if !res.OK() {
-				if g.dg = e.digest(*ctx); g.dg != pre {
-					return explore.Failf("failed-op-changed-state:Auth", "rejected authentication (%v) changed state: %s", res.Err, e.describe(*ctx))
+			add(label, func(ctx *sdk.Context, g *ghost) *explore.Fail {
+				preNoPaloma := ""
+				if _, isClient := g.Act[c.Name]; isClient {
+					preNoPaloma = e.w.StoreDigest(*ctx, "bank", "feegrant") + e.authCanon(*ctx)
 				}
+				msg := &palomatypes.MsgAuthLightNodeClient{Metadata: vtypes.MsgMetadata{Creator: render(c, rd), Signers: []string{c.Addr.String()}}}
+				var err error
+				if rd == rLower {
+					res := w.DeliverTx(*ctx, []*world.Actor{c}, msg)
+					if res.Stage == "build" {
+						return explore.Failf("harness", "tx build: %v", res.Err)
+					}
+					err = res.Err
+				} else {
+					err = directMsg(*ctx, func(cc sdk.Context, s palomatypes.MsgServer) error {
+						_, err := s.AuthLightNodeClient(cc, msg)
+						return err
+					})
+				}
+				if err != nil {
+					if g.dg = e.digest(*ctx); g.dg != pre {
+						return explore.Failf("failed-op-changed-state:Auth", "rejected authentication (%v) changed state: %s", err, e.describe(*ctx))
+					}
+					return nil
+				}
+				a, ok := g.Act[c.Name]
+				if !ok || rd == rMixed {
+					return explore.Failf("auth-nonclient", "authentication of %s%s accepted, whose account never activated a licence", c.Name, tag(rd))
+				}
+				if e.w.StoreDigest(*ctx, "bank", "feegrant")+e.authCanon(*ctx) != preNoPaloma {
+					return explore.Failf("auth-side-effect", "authentication changed bank / account / feegrant state: %s", e.describe(*ctx))
+				}
+				e.cnt["authentications"]++
+				a.LastAuth = ctx.BlockTime().Unix()
+				g.Act[c.Name] = a
 				return nil
-			}
-			a, ok := g.Act[c.Name]
-			if !ok {
-				return explore.Failf("auth-nonclient", "authentication of %s accepted, which never activated a licence", c.Name)
-			}
-			if e.w.StoreDigest(*ctx, "bank", "feegrant")+e.authCanon(*ctx) != preNoPaloma {
-				return explore.Failf("auth-side-effect", "authentication changed bank / account / feegrant state: %s", e.describe(*ctx))
-			}
-			e.cnt["authentications"]++
-			a.LastAuth = ctx.BlockTime().Unix()
-			g.Act[c.Name] = a
-			return nil
-		})
+			})
+		}
 	}
 
 	// --- time and governance
